@@ -31,12 +31,20 @@ def index_arg(ixs, kinds):
     return t
 
 
-def get(a, ixs, spelling, kinds, dims=None, tol=None, keepdims=False, mode="label"):
-    """read with the given spelling; label-mode spellings first, then position-mode ones"""
+def get(a, ixs, spelling, kinds, dims=None, tol=None, keepdims=False, mode="label", pre=None):
+    """read with the given spelling; label-mode spellings first, then position-mode ones.
+    pre: a dict owned by the caller; the index objects (tuple, lists, ndarrays, {dim: index} mapping) are built once and kept in it, so that
+    a second call with the same `pre` passes the SAME objects again (a caller re-using its index)"""
+    pre = {} if pre is None else pre
+
+    def once(key, build):
+        if key not in pre:
+            pre[key] = build()
+        return pre[key]
     dims = dims or list(a.dims)
     if mode == "position":
         kinds = ["i"] * max(len(ixs), len(kinds))
-    t = dec_tuple(ixs, kinds)
+    t = once("t", lambda: dec_tuple(ixs, kinds))
     kw = {}
     if tol is not None:
         kw["tol"] = tol
@@ -58,33 +66,33 @@ def get(a, ixs, spelling, kinds, dims=None, tol=None, keepdims=False, mode="labe
     if spelling == "nloc":
         return a.nloc[t[0]] if len(t) == 1 else a.nloc[t]
     if spelling == "dictn":
-        return a.take({dims[i]: decode_ix(ix, kinds[i]) for i, ix in nf}, **kw)
+        return a.take(once("dn", lambda: {dims[i]: decode_ix(ix, kinds[i]) for i, ix in nf}), **kw)
     if spelling == "dicti":
-        return a.take({i: decode_ix(ix, kinds[i]) for i, ix in nf}, **kw)
+        return a.take(once("di", lambda: {i: decode_ix(ix, kinds[i]) for i, ix in nf}), **kw)
     if spelling == "sel":
         if kw:
-            return a.take({dims[i]: decode_ix(ix, kinds[i]) for i, ix in nf}, indexing="label", **kw)
-        return a.sel(**{dims[i]: decode_ix(ix, kinds[i]) for i, ix in nf})
+            return a.take(once("dn", lambda: {dims[i]: decode_ix(ix, kinds[i]) for i, ix in nf}), indexing="label", **kw)
+        return a.sel(**once("dn", lambda: {dims[i]: decode_ix(ix, kinds[i]) for i, ix in nf}))
     if spelling == "axisn":
         i, ix = nf[0]
-        return a.take(decode_ix(ix, kinds[i]), axis=dims[i], **kw)
+        return a.take(once("ax", lambda: decode_ix(ix, kinds[i])), axis=dims[i], **kw)
     if spelling == "axisp":
         i, ix = nf[0]
-        return a.take(decode_ix(ix, kinds[i]), axis=i, **kw)
+        return a.take(once("ax", lambda: decode_ix(ix, kinds[i])), axis=i, **kw)
     # ---- position mode
     if spelling == "ix":      # only valid when the array's own mode is 'label' (ix toggles)
         return a.ix[t[0]] if len(t) == 1 else a.ix[t]
     if spelling == "iloc":
         return a.iloc[t[0]] if len(t) == 1 else a.iloc[t]
     if spelling == "isel":
-        return a.isel(**{dims[i]: decode_ix(ix, kinds[i]) for i, ix in nf})
+        return a.isel(**once("dn", lambda: {dims[i]: decode_ix(ix, kinds[i]) for i, ix in nf}))
     if spelling == "takepos":
         return a.take(t, indexing="position", **kw)
     if spelling == "dictpos":
-        return a.take({dims[i]: decode_ix(ix, kinds[i]) for i, ix in nf}, indexing="position", **kw)
+        return a.take(once("dn", lambda: {dims[i]: decode_ix(ix, kinds[i]) for i, ix in nf}), indexing="position", **kw)
     if spelling == "axispos":
         i, ix = nf[0]
-        return a.take(decode_ix(ix, kinds[i]), axis=dims[i], indexing="position", **kw)
+        return a.take(once("ax", lambda: decode_ix(ix, kinds[i])), axis=dims[i], indexing="position", **kw)
     raise ValueError(spelling)
 
 
